@@ -635,3 +635,358 @@ Section Final.
       apply before_nth; [lia | rewrite final_length; lia].
   Qed.
 End Final.
+
+(** * Reading the result off the re-indexed matrix *)
+
+Definition mapi_from {A B} (s : nat) (f : nat -> A -> B) (l : list A) : list B :=
+  map (fun p => f (fst p) (snd p)) (combine (seq s (length l)) l).
+
+Lemma mapi_from_cons {A B} s (f : nat -> A -> B) x l : mapi_from s f (x :: l) = f s x :: mapi_from (S s) f l.
+Proof. reflexivity. Qed.
+
+Lemma mapi_is_from {A B} (f : nat -> A -> B) l : mapi f l = mapi_from 0 f l.
+Proof. reflexivity. Qed.
+
+Lemma mapi_from_map {A B} (f : nat -> A -> B) (h : A -> B) d : forall l s,
+  (forall i, i < length l -> f (s + i) (nth i l d) = h (nth i l d)) -> mapi_from s f l = map h l.
+Proof.
+  induction l as [|x l IH]; intros s H; [reflexivity|].
+  rewrite mapi_from_cons. simpl. f_equal.
+  - specialize (H 0). simpl in H. rewrite Nat.add_0_r in H. apply H. lia.
+  - apply IH. intros i Hi. specialize (H (S i)). simpl in H. rewrite Nat.add_succ_r in H. apply H. lia.
+Qed.
+
+Lemma list_eqb_mapi_from {A} (e : A -> A -> bool) (f : nat -> A -> A) d : forall l s,
+  (forall i, i < length l -> e (nth i l d) (f (s + i) (nth i l d)) = true) ->
+  list_eqb e l (mapi_from s f l) = true.
+Proof.
+  induction l as [|x l IH]; intros s H; [reflexivity|].
+  rewrite mapi_from_cons. simpl. apply andb_true_iff. split.
+  - specialize (H 0). simpl in H. rewrite Nat.add_0_r in H. apply H. lia.
+  - apply IH. intros i Hi. specialize (H (S i)). simpl in H. rewrite Nat.add_succ_r in H. apply H. lia.
+Qed.
+
+Lemma reindex_simpl M ix : reindex M ix = map (fun a => map (fun b => mget M a b) ix) ix.
+Proof. unfold reindex. rewrite map_map. reflexivity. Qed.
+
+Lemma filter_map_S (P : nat -> bool) s : filter P (map S s) = map S (filter (fun j => P (S j)) s).
+Proof. induction s as [|a s IH]; simpl; auto. destruct (P (S a)); simpl; now rewrite IH. Qed.
+
+Lemma select_filter (f : nat -> bool) l : map (fun j => nth j l 0) (nonzero (map f l)) = filter f l.
+Proof.
+  unfold nonzero. rewrite map_length. induction l as [|x l IH]; [reflexivity|].
+  cbn [length map]. rewrite <- cons_seq, <- seq_shift. cbn [filter nth].
+  rewrite filter_map_S. cbn [nth]. 
+  destruct (f x); cbn [map nth]; rewrite map_map; cbn [nth]; now rewrite IH.
+Qed.
+
+Lemma nth_map_in {A B} (h : A -> B) l i d d' : i < length l -> nth i (map h l) d' = h (nth i l d).
+Proof. intros H. rewrite nth_indep with (d' := h d) by now rewrite map_length. apply map_nth. Qed.
+
+Lemma read_children_simpl P srt :
+  read_children srt (reindex P srt) = map (fun k => (k, filter (fun j => mget P k j) srt)) srt.
+Proof.
+  unfold read_children. rewrite mapi_is_from, reindex_simpl.
+  apply mapi_from_map with (d := 0). intros i Hi. simpl. f_equal.
+  unfold mrow. rewrite nth_map_in with (d := 0) by auto. apply select_filter.
+Qed.
+
+Lemma read_ancestors_simpl P srt :
+  read_ancestors srt (reindex P srt) = map (fun j => (j, filter (fun k => mget P k j) srt)) srt.
+Proof.
+  unfold read_ancestors. rewrite mapi_is_from, reindex_simpl.
+  apply mapi_from_map with (d := 0). intros i Hi. simpl. f_equal.
+  unfold mcol. rewrite map_map.
+  rewrite (map_ext (fun a => nth i (map (fun b => mget P a b) srt) false) (fun a => mget P a (nth i srt 0))).
+  - apply select_filter.
+  - intros a. now apply nth_map_in.
+Qed.
+
+Lemma triangular_ok P srt :
+  (forall ia ib, ib <= ia -> ia < length srt -> mget P (nth ia srt 0) (nth ib srt 0) = false) ->
+  mat_eqb (reindex P srt) (triu1 (reindex P srt)) = true.
+Proof.
+  intros H. unfold mat_eqb, triu1. rewrite mapi_is_from.
+  apply list_eqb_mapi_from with (d := []). intros ia Hia. simpl.
+  rewrite mapi_is_from. apply list_eqb_mapi_from with (d := false). intros ib Hib. simpl.
+  destruct (Nat.ltb_spec ia ib); [apply eqb_reflx|].
+  rewrite reindex_simpl, map_length in Hia.
+  rewrite reindex_simpl in *. rewrite nth_map_in with (d := 0) in * by auto.
+  rewrite map_length in Hib. rewrite nth_map_in with (d := 0) by auto.
+  rewrite H; auto.
+Qed.
+
+(** * The consistency checks *)
+
+Lemma unknown_nodes_nil g : unknown_nodes g = [] <-> forall c p, edge g p c -> p < nnodes g.
+Proof.
+  unfold unknown_nodes. rewrite filter_nil_iff. split.
+  - intros H c p E. assert (Hc : c < nnodes g) by (eapply edge_child_lt; eauto).
+    specialize (H p). rewrite negb_false_iff, Nat.ltb_lt in H. apply H.
+    apply in_concat. exists (parents g c). split; auto. now apply nth_In.
+  - intros H p Hp. apply in_concat in Hp as (l & Hl & Hp).
+    apply In_nth with (d := []) in Hl as (c & Hc & <-).
+    rewrite negb_false_iff, Nat.ltb_lt. apply (H c). exact Hp.
+Qed.
+
+Lemma self_loops_nil g : self_loops g = [] <-> forall i, ~ edge g i i.
+Proof.
+  unfold self_loops. rewrite filter_nil_iff. split.
+  - intros H i E. assert (Hi : i < nnodes g) by (eapply edge_child_lt; eauto).
+    apply In_seq0 in Hi. apply H in Hi. apply memb_false in Hi. contradiction.
+  - intros H x _. apply memb_false. apply H.
+Qed.
+
+Lemma left_alone_In g i : In i (left_alone g) <-> i < nnodes g /\ parents g i = [] /\ forall c, ~ edge g i c.
+Proof.
+  unfold left_alone. rewrite filter_In, In_seq0, andb_true_iff, !null_no_In.
+  split.
+  - intros (H1 & H2 & H3). split; [|split]; auto.
+    + destruct (parents g i) as [|x l]; auto. exfalso. apply (H3 x). now left.
+    + intros c. rewrite <- In_children. apply H2.
+  - intros (H1 & H2 & H3). split; [|split]; auto.
+    + intros c. rewrite In_children. apply H3.
+    + rewrite H2. auto.
+Qed.
+
+Lemma left_alone_nil g : left_alone g = [] <-> ~ isolated g.
+Proof.
+  split.
+  - intros H (i & Hi). apply left_alone_In in Hi. rewrite H in Hi. destruct Hi.
+  - intros H. destruct (left_alone g) as [|i l] eqn:E; auto.
+    exfalso. apply H. exists i. apply left_alone_In. rewrite E. now left.
+Qed.
+
+(** * What [build] returns *)
+
+Definition result_of (g : graph) (st : kstate) : dag :=
+  mkDag (k_sorted st) (map (direct_children g) (seq 0 (nnodes g)))
+        (read_children (k_sorted st) (reindex (k_path st) (k_sorted st)))
+        (read_ancestors (k_sorted st) (reindex (k_path st) (k_sorted st))).
+
+Lemma same_set_all srt n : same_set srt (seq 0 n) = true -> forall x, x < n -> In x srt.
+Proof.
+  unfold same_set. rewrite andb_true_iff, !forallb_forall. intros [_ H] x Hx.
+  apply memb_In, H, In_seq0, Hx.
+Qed.
+
+Lemma build_ok g r : build g = Ok r ->
+  gwf g /\ ~ isolated g /\
+  exists st, Inv g st /\ k_queue st = [] /\ (forall x, x < nnodes g -> In x (k_sorted st)) /\ r = result_of g st.
+Proof.
+  unfold build.
+  destruct (null (unknown_nodes g)) eqn:E1; cbn [negb]; [|discriminate].
+  destruct (null (self_loops g)) eqn:E2; cbn [negb]; [|discriminate].
+  destruct (null (left_alone g)) eqn:E3; cbn [negb]; [|discriminate].
+  apply null_nil in E1, E2, E3.
+  assert (Hg : gwf g) by (split; [now apply unknown_nodes_nil | now apply self_loops_nil]).
+  destruct (kahn_total g Hg) as (st & -> & HI & Hq).
+  destruct (same_set (k_sorted st) (seq 0 (nnodes g))) eqn:E4; cbn [negb]; [|discriminate].
+  destruct (mat_eqb _ _) eqn:E5; cbn [negb]; [|discriminate].
+  intros [= <-]. split; auto. split; [now apply left_alone_nil|].
+  exists st. split; [exact HI|]. split; [exact Hq|]. split; [now apply same_set_all | reflexivity].
+Qed.
+
+Theorem build_err_meaning g e : build g = Err e ->
+  (e = EUnknownRef /\ unknown_ref g) \/ (e = ESelfLoop /\ self_loop g) \/
+  (e = EIsolated /\ isolated g) \/ (e = ENotDag /\ cyclic g).
+Proof.
+  unfold build.
+  destruct (null (unknown_nodes g)) eqn:E1; cbn [negb].
+  2:{ intros [= <-]. left. split; auto.
+      apply null_false_In in E1 as (p & Hp). unfold unknown_nodes in Hp.
+      apply filter_In in Hp as [Hp Hlt]. apply in_concat in Hp as (l & Hl & Hp).
+      apply In_nth with (d := []) in Hl as (c & Hc & <-).
+      exists c, p. split; auto. rewrite negb_true_iff, Nat.ltb_ge in Hlt. exact Hlt. }
+  destruct (null (self_loops g)) eqn:E2; cbn [negb].
+  2:{ intros [= <-]. right. left. split; auto.
+      apply null_false_In in E2 as (i & Hi). unfold self_loops in Hi.
+      apply filter_In in Hi as [_ Hi]. exists i. now apply memb_In. }
+  destruct (null (left_alone g)) eqn:E3; cbn [negb].
+  2:{ intros [= <-]. right. right. left. split; auto.
+      apply null_false_In in E3 as (i & Hi). exists i. now apply left_alone_In. }
+  apply null_nil in E1, E2.
+  assert (Hg : gwf g) by (split; [now apply unknown_nodes_nil | now apply self_loops_nil]).
+  destruct (kahn_total g Hg) as (st & -> & HI & Hq).
+  destruct (same_set (k_sorted st) (seq 0 (nnodes g))) eqn:E4; cbn [negb].
+  2:{ intros [= <-]. right. right. right. split; auto.
+      unfold same_set in E4. apply andb_false_iff in E4 as [E4 | E4].
+      - exfalso. apply forallb_false_ex in E4 as (x & Hx & E). apply memb_false in E. apply E.
+        apply In_seq0. eapply final_lt; eauto.
+      - apply forallb_false_ex in E4 as (x & Hx & E). apply memb_false in E. apply In_seq0 in Hx.
+        eapply unsorted_cyclic; eauto. split; eauto. }
+  pose proof (same_set_all _ _ E4) as Hall.
+  rewrite triangular_ok; cbn [negb]; [discriminate|].
+  intros ia ib Hle Hia. rewrite (final_length g st HI Hq Hall) in Hia.
+  now apply (final_lower_false g Hg st HI Hq Hall).
+Qed.
+
+Theorem build_topological g r : build g = Ok r ->
+  Permutation (order r) (seq 0 (nnodes g)) /\ forall i j, reach g i j -> before (order r) i j.
+Proof.
+  intros H. apply build_ok in H as (Hg & _ & st & HI & Hq & Hall & ->). simpl. split.
+  - now apply final_perm.
+  - now apply final_before.
+Qed.
+
+Theorem build_exact g r : build g = Ok r ->
+  map fst (sorted_children r) = order r /\ map fst (sorted_ancestors r) = order r /\
+  (forall i l, In (i, l) (sorted_children r) ->
+      (exists f, l = filter f (order r)) /\ forall j, In j l <-> reach g i j) /\
+  (forall i l, In (i, l) (sorted_ancestors r) ->
+      (exists f, l = filter f (order r)) /\ forall j, In j l <-> reach g j i).
+Proof.
+  intros H. apply build_ok in H as (Hg & _ & st & HI & Hq & Hall & ->). simpl.
+  rewrite read_children_simpl, read_ancestors_simpl, !map_map. simpl. rewrite !map_id.
+  split; [reflexivity|]. split; [reflexivity|]. split.
+  - intros i l Hil. apply in_map_iff in Hil as (k & [= <- <-] & Hk).
+    split; [eexists; reflexivity|]. intros j. rewrite filter_In.
+    assert (Hk' : k < nnodes g) by (eapply final_lt; eauto). split.
+    + intros [Hj E]. apply (final_path g Hg st HI Hall); eauto using final_lt.
+    + intros R. destruct (reach_lt g k j Hg R) as [_ Hj]. split; auto.
+      now apply (final_path g Hg st HI Hall).
+  - intros i l Hil. apply in_map_iff in Hil as (k & [= <- <-] & Hk).
+    split; [eexists; reflexivity|]. intros j. rewrite filter_In.
+    assert (Hk' : k < nnodes g) by (eapply final_lt; eauto). split.
+    + intros [Hj E]. apply (final_path g Hg st HI Hall); eauto using final_lt.
+    + intros R. destruct (reach_lt g j k Hg R) as [Hj _]. split; auto.
+      now apply (final_path g Hg st HI Hall).
+Qed.
+
+Theorem build_refuses g : cyclic g \/ self_loop g \/ unknown_ref g \/ isolated g -> exists e, build g = Err e.
+Proof.
+  intros H. destruct (build g) as [r|e] eqn:E; [exfalso | eauto].
+  apply build_ok in E as (Hg & Hiso & st & HI & Hq & Hall & _).
+  destruct H as [H | [(i & H) | [(c & p & H & Hp) | H]]].
+  - now apply (final_acyclic g Hg st HI Hq Hall).
+  - now apply (proj2 Hg i).
+  - apply (proj1 Hg) in H. lia.
+  - contradiction.
+Qed.
+
+Theorem build_accepts g : ~ cyclic g -> ~ self_loop g -> ~ unknown_ref g -> ~ isolated g -> exists r, build g = Ok r.
+Proof.
+  intros H1 H2 H3 H4. destruct (build g) as [r|e] eqn:E; [eauto | exfalso].
+  apply build_err_meaning in E as [[_ H] | [[_ H] | [[_ H] | [_ H]]]]; contradiction.
+Qed.
+
+Theorem build_no_artefact g e : build g = Err e -> e <> EFuel /\ e <> ENotTriangular.
+Proof.
+  intros E. apply build_err_meaning in E as [[-> _] | [[-> _] | [[-> _] | [-> _]]]]; split; discriminate.
+Qed.
+
+Theorem build_direct_children g r : build g = Ok r ->
+  length (dchildren r) = nnodes g /\
+  forall i, i < nnodes g -> NoDup (nth i (dchildren r) []) /\ forall c, In c (nth i (dchildren r) []) <-> edge g i c.
+Proof.
+  intros H. apply build_ok in H as (_ & _ & st & _ & _ & _ & ->). simpl. split.
+  - now rewrite map_length, seq_length.
+  - intros i Hi. rewrite nth_map_in with (d := 0) by now rewrite seq_length.
+    rewrite seq_nth by auto. simpl. split; [apply NoDup_children | intros c; apply In_children].
+Qed.
+
+(** * The result does not depend on the order (or repetitions) in which the ancestor collections are listed
+      — the model-side counterpart of "frozenset iteration order is irrelevant" *)
+
+Definition set_eq (a b : list nat) : Prop := forall x, In x a <-> In x b.
+Definition graph_equiv (g1 g2 : graph) : Prop :=
+  length g1 = length g2 /\ forall i, set_eq (parents g1 i) (parents g2 i).
+
+Lemma bool_eq_iff (b1 b2 : bool) : (b1 = true <-> b2 = true) -> b1 = b2.
+Proof. destruct b1, b2; intuition congruence. Qed.
+
+Lemma memb_set_eq x a b : set_eq a b -> memb x a = memb x b.
+Proof. intros H. apply bool_eq_iff. rewrite !memb_In. apply H. Qed.
+
+Lemma null_set_eq a b : set_eq a b -> null a = null b.
+Proof.
+  intros H. apply bool_eq_iff. rewrite !null_no_In. split; intros H' x Hx; apply (H' x), H, Hx.
+Qed.
+
+Lemma remove_all_set_eq n a b : set_eq a b -> set_eq (remove_all n a) (remove_all n b).
+Proof. intros H x. rewrite !In_remove_all. now rewrite (H x). Qed.
+
+Lemma nth_upd {T} (l : list T) i k v d :
+  nth k (upd l i v) d = if (k =? i) && (i <? length l) then v else nth k l d.
+Proof.
+  revert i k; induction l as [|a l IH]; intros i k.
+  - simpl. rewrite andb_false_r. now destruct i, k.
+  - destruct i as [|i], k as [|k]; simpl; auto. rewrite IH. reflexivity.
+Qed.
+
+Section SetOrder.
+  Variables g1 g2 : graph.
+  Hypothesis Heq : graph_equiv g1 g2.
+
+  Lemma eqv_nnodes : nnodes g1 = nnodes g2.
+  Proof. apply Heq. Qed.
+
+  Lemma eqv_edge p c : edge g1 p c <-> edge g2 p c.
+  Proof. apply Heq. Qed.
+
+  Lemma eqv_children a : direct_children g1 a = direct_children g2 a.
+  Proof.
+    unfold direct_children. rewrite eqv_nnodes. apply filter_ext.
+    intros c. apply memb_set_eq, Heq.
+  Qed.
+
+  Definition krel (s1 s2 : kstate) : Prop :=
+    k_sorted s1 = k_sorted s2 /\ k_queue s1 = k_queue s2 /\ k_path s1 = k_path s2 /\
+    length (k_anc s1) = length (k_anc s2) /\ forall m, set_eq (nth m (k_anc s1) []) (nth m (k_anc s2) []).
+
+  Lemma krel_visit n s1 s2 m : krel s1 s2 -> krel (visit_child n s1 m) (visit_child n s2 m).
+  Proof.
+    intros (E1 & E2 & E3 & E4 & E5). unfold visit_child, krel. simpl.
+    pose proof (remove_all_set_eq n _ _ (E5 m)) as Hr.
+    rewrite E1, E2, E3, (null_set_eq _ _ Hr), !length_upd.
+    split; [|split; [|split; [|split]]]; auto.
+    intros m'. rewrite !nth_upd, E4. destruct ((m' =? m) && (m <? length (k_anc s2))); [apply Hr | apply E5].
+  Qed.
+
+  Lemma krel_fold n cs : forall s1 s2, krel s1 s2 ->
+    krel (fold_left (visit_child n) cs s1) (fold_left (visit_child n) cs s2).
+  Proof. induction cs as [|m cs IH]; simpl; auto. intros s1 s2 H. apply IH, krel_visit, H. Qed.
+
+  Definition res_rel (r1 r2 : res kstate) : Prop :=
+    match r1, r2 with
+    | Ok s1, Ok s2 => krel s1 s2
+    | Err e1, Err e2 => e1 = e2
+    | _, _ => False
+    end.
+
+  Lemma krel_loop : forall fuel s1 s2, krel s1 s2 -> res_rel (kahn_loop g1 fuel s1) (kahn_loop g2 fuel s2).
+  Proof.
+    induction fuel as [|fuel IH]; intros s1 s2 H; pose proof H as (E1 & E2 & E3 & E4 & E5); simpl; rewrite <- E2;
+      destruct (k_queue s1) as [|n q]; simpl; auto.
+    apply IH. rewrite eqv_children. apply krel_fold. unfold krel. simpl. rewrite E1. auto.
+  Qed.
+
+  Lemma krel_init : krel (kahn_init g1) (kahn_init g2).
+  Proof.
+    unfold kahn_init, krel. simpl. rewrite eqv_nnodes. repeat split; try apply Heq.
+    apply filter_ext. intros i. apply null_set_eq, Heq.
+  Qed.
+
+  Theorem build_set_order_irrelevant : build g1 = build g2.
+  Proof.
+    unfold build.
+    assert (H1 : null (unknown_nodes g1) = null (unknown_nodes g2)).
+    { apply bool_eq_iff. rewrite !null_nil, !unknown_nodes_nil, eqv_nnodes.
+      split; intros H c p E; apply (H c p), eqv_edge, E. }
+    assert (H2 : self_loops g1 = self_loops g2).
+    { unfold self_loops. rewrite eqv_nnodes. apply filter_ext. intros i. apply memb_set_eq, Heq. }
+    assert (H3 : left_alone g1 = left_alone g2).
+    { unfold left_alone. rewrite eqv_nnodes. apply filter_ext. intros i.
+      rewrite eqv_children. f_equal. apply null_set_eq, Heq. }
+    rewrite H1, H2, H3, eqv_nnodes.
+    destruct (negb (null (unknown_nodes g2))); auto.
+    destruct (negb (null (self_loops g2))); auto.
+    destruct (negb (null (left_alone g2))); auto.
+    pose proof (krel_loop (S (nnodes g2)) _ _ krel_init) as H.
+    destruct (kahn_loop g1 (S (nnodes g2)) (kahn_init g1)) as [s1|e1],
+             (kahn_loop g2 (S (nnodes g2)) (kahn_init g2)) as [s2|e2]; simpl in H; try contradiction.
+    - destruct H as (E1 & _ & E3 & _). rewrite E1, E3.
+      rewrite (map_ext _ _ eqv_children). reflexivity.
+    - now subst.
+  Qed.
+End SetOrder.
